@@ -34,6 +34,18 @@ def server_link(argv, cwd, tries=3):
     return rc, msg
 
 
+def run_tool(cmd, cwd, tries=3):
+    """subprocess.run of a reference tool (ld, ld.lld, ar); repeated when the tool was killed by a
+    signal (see server_link). -> (returncode, stderr text)."""
+    for _ in range(tries):
+        p = subprocess.run(cmd, cwd=cwd, stdin=subprocess.DEVNULL, stdout=subprocess.PIPE,
+                           stderr=subprocess.PIPE)
+        if p.returncode >= 0:
+            break
+        EXTERNAL_KILLS[0] += 1
+    return p.returncode, p.stderr.decode("utf-8", "replace")
+
+
 # ------------------------------------------------------------------------------------ ar writer
 def _hdr(name, size, mode="644", date="0", uid="0", gid="0"):
     return (name.ljust(16) + date.ljust(12) + uid.ljust(6) + gid.ljust(6) + mode.ljust(8)
